@@ -227,8 +227,10 @@ Definition step (pts : points) (fam : family) (s : state) (o : op) : state * (na
       let present := match f_fant_req fam with
                      | Some sl => match lookup_slot sl (cch s) with Some _ => true | None => false end
                      | None => true end in
-      (* deepcopy(self) raises on a cached tensor that hangs on an autograd graph (a kernel cache
-         filled by a call made with gradients enabled) *)
+      (* deepcopy(self) raises on a cached tensor that hangs on an autograd graph (a module-level cache
+         filled by a call made with gradients enabled) IF the cache is copied with the model: no
+         current family has such a cache ([f_fant_copy] = [] everywhere; GridKernel.__deepcopy__ skips
+         its cached matrix), so this branch is only reachable for [fam_kiss_cached_copy] *)
       let copyable := negb (existsb (fun e => in_slots (f_fant_copy fam) e &&
                                       match e_g e with GNone => false | _ => true end) (cch s)) in
       if present && f_fant_ok fam then
@@ -343,12 +345,26 @@ Definition fam_kiss : family := {|
                      | _ => [U KMAT 0; U STRAT 0; U MEAN 0]
                      end;
   f_train_uses := []; f_prior_uses := [U KMAT 0];
-  f_fant_uses := [U KMAT 0; U WISKI 0]; f_fant_req := Some STRAT; f_fant_ok := true; f_fant_copy := [KMAT];
+  f_fant_uses := [U KMAT 0; U WISKI 0]; f_fant_req := Some STRAT; f_fant_ok := true; f_fant_copy := [];
   f_parent := fun sl => if (sl =? MEAN) || (sl =? COVAR) || (sl =? WISKI) then Some STRAT else None;
   f_ddep := fun sl => (sl =? STRAT) || (sl =? MEAN) || (sl =? COVAR) || (sl =? WISKI);
   f_strat_slots := [STRAT; MEAN; COVAR; WISKI]; f_hook_slots := [MEAN; COVAR; WISKI];
   f_kernel_slots := [KMAT]; f_vs_slots := []; f_has_data := true;
   f_ck := fun _ => 0; f_ck_slots := []; f_ck_drop := []; f_ck_train := false |}.
+
+(* KISS-GP as it was BEFORE GridKernel.__deepcopy__ stopped copying _cached_kernel_mat: the cached
+   kernel matrix was deep-copied with the model by get_fantasy_model, and deepcopy raises on a
+   tensor that hangs on an autograd graph (filled by a call made with gradients enabled).  Kept only
+   to show that the exception safety of get_fantasy_model (point p_restore) mattered; no current
+   family has a cache that is copied, so under the current code a fantasy model never fails that way. *)
+Definition fam_kiss_cached_copy : family := {|
+  f_ncfg := f_ncfg fam_kiss; f_uses := f_uses fam_kiss; f_train_uses := f_train_uses fam_kiss;
+  f_prior_uses := f_prior_uses fam_kiss; f_fant_uses := f_fant_uses fam_kiss; f_fant_req := f_fant_req fam_kiss;
+  f_fant_ok := true; f_fant_copy := [KMAT]; f_parent := f_parent fam_kiss; f_ddep := f_ddep fam_kiss;
+  f_strat_slots := f_strat_slots fam_kiss; f_hook_slots := f_hook_slots fam_kiss;
+  f_kernel_slots := f_kernel_slots fam_kiss; f_vs_slots := f_vs_slots fam_kiss; f_has_data := true;
+  f_ck := f_ck fam_kiss; f_ck_slots := f_ck_slots fam_kiss; f_ck_drop := f_ck_drop fam_kiss;
+  f_ck_train := f_ck_train fam_kiss |}.
 
 (* SGPR: InducingPointKernel + SGPRPredictionStrategy.
    cfg 0 default; 1 fast_pred_var; 2 nan policy 'mask'; 3 sgpr_diagonal_correction(False):
